@@ -8,7 +8,7 @@ from ..runner import Part
 PROPERTY = 'C13'
 LEVEL = 'model_checking'
 RULE = ('every sequence of <=k symbols over {connect-ok, connect-fail x {no keys, non-token challenge, silent device, transport connect error, device that answers the public key with another challenge}, close, shell, exec_out, '
-        'root, reboot, streaming_shell, creating a streaming_shell generator, draining a generator created earlier, list, stat, pull->existing path, pull->fresh path, pull->BytesIO, push, and list/stat/pull/push with an empty path} on one object, both twins, executed on '
+        'root, reboot, streaming_shell, creating a streaming_shell generator, draining a generator created earlier, list, stat, pull->existing path, pull->fresh path, pull->BytesIO, push, a push the device rejects, a pull of a missing file, shell with a blank command, and list/stat/pull/push with an empty path} on one object, both twins, executed on '
         'the real device class; reference = the availability machine (True after connect-ok, False after close / any connect attempt that fails); oracle: operation '
         'while unavailable raises AdbConnectionError, empty path raises DevicePathInvalidError, in both cases zero bytes written to the transport and no local file '
         'created; `available` equals the machine flag after every step; operations while available return the model\'s ground truth. States = (machine flag, transport '
@@ -25,7 +25,8 @@ CONNECTS = {
 }
 FAIL_EXC = {'fail-nokeys': 'DeviceAuthError', 'fail-nontoken': 'InvalidResponseError', 'fail-silent': ('AdbTimeoutError', 'TcpTimeoutException'),
             'fail-transport': 'ConnectionRefusedError', 'fail-rechallenge': ('AdbTimeoutError', 'TcpTimeoutException')}
-OPS = ['shell', 'exec_out', 'root', 'reboot', 'streaming_shell', 'list', 'stat', 'pull', 'pull-path', 'pull-newpath', 'push', 'stream-drain']
+OPS = ['shell', 'exec_out', 'root', 'reboot', 'streaming_shell', 'list', 'stat', 'pull', 'pull-path', 'pull-newpath', 'push', 'stream-drain', 'push-rejected', 'pull-missing', 'shell-blank']
+BLANK = ['', '  ', '\n']
 NEUTRAL = ['stream-create']
 EMPTY = ['list-empty', 'stat-empty', 'pull-empty', 'push-empty', 'push-dir-empty']
 ALPHABET = list(CONNECTS) + ['close'] + OPS + EMPTY + NEUTRAL
@@ -42,6 +43,12 @@ def op_for(sym, i):
         return ('pull', '/f', 'newpath')
     if sym == 'stream-drain':
         return ('gen-drain',)
+    if sym == 'push-rejected':
+        return ('push', ('bytes', b'zz' * 10), '/ro/x', {'mtime': 3})
+    if sym == 'pull-missing':
+        return ('pull', '/missing', 'bytesio')
+    if sym == 'shell-blank':
+        return ('shell', BLANK[i % 3], {'decode': False})
     e = ['', b'', None][i % 3]
     if sym == 'push-dir-empty':
         return ('push', ('dir', {'a': b'x' * 10} if i % 2 else {}, 'elsewhere'), ['', b''][i % 2])
@@ -51,6 +58,7 @@ def op_for(sym, i):
 
 def run_seq(params, ch):
     cfg = scen.ops_cfg()
+    cfg['ro_prefix'] = b'/ro/'
     s = Session(ch, cfg, twin=params['twin'])
     try:
         flag = False
@@ -112,6 +120,14 @@ def run_seq(params, ch):
                         want = ('ok', scen.FILE_F)
                     elif sym == 'stream-drain':
                         want = scen.op_expected('streaming_shell', cfg)
+                    elif sym == 'push-rejected':
+                        want = ('exc', 'PushFailedError')
+                        r = r[:2]
+                    elif sym == 'pull-missing':
+                        want = ('exc', 'AdbCommandFailureException')
+                        r = r[:2]
+                    elif sym == 'shell-blank':
+                        want = ('ok', b'out:' + BLANK[i % 3].encode())
                     else:
                         want = scen.op_expected(sym, cfg)
                     if r != want:
